@@ -77,12 +77,12 @@ def run(prop, tier):
             o = gobs[f["line"] - 1]
             print("EXTRA-VIOLATION module=GrpcStatus clauses=%s service_answer=%s adapter_returned=%s" % (",".join(sorted(f["clauses"])), json.dumps({"has": o["has"], "d": o["d"]})[:500], json.dumps(o["got"])[:500]))
     print("GrpcStatus: %d StatusData cases exported by TLC, run on the real GrpcStatusAdapter, %d failing" % (len(gobs), len(gt.marked["FAIL"])))
-    # ---- Builtins (FixedStatus part; the localization part is judged under C03)
+    # ---- Builtins (FixedStatus, Disabled/FixedAuthentication, FixedDiscovery; the localization part is judged under C03)
     b = vlib.run_tlc("MC_Builtins", "MC_Builtins.cfg", wd, workers=1, timeout=600)
     if not b.ok:
         raise vlib.ToolError("TLC reports %s on MC_Builtins.cfg" % b.violated)
     hc = vlib.cargo_build("hx-core")
-    cases = [c for c in b.marked["REPLAY"] if c["kind"] == "status"]
+    cases = [c for c in b.marked["REPLAY"] if c["kind"] in ("status", "auth", "discover")]
     binp, boutp = os.path.join(wd, "b_in.ndjson"), os.path.join(wd, "b_obs.ndjson")
     vlib.write_ndjson(binp, cases)
     vlib.run_bin(hc, ["builtins", "--in", binp, "--out", boutp], timeout=300)
@@ -92,8 +92,8 @@ def run(prop, tier):
         raise vlib.ToolError("Trace_Builtins did not consume all records")
     for f in bt.marked["FAIL"]:
         bad += 1
-        print("EXTRA-VIOLATION module=Builtins clause=B_StatusProtocol case=%s" % json.dumps(bobs[f["line"] - 1]))
-    print("Builtins/FixedStatus: %d cases judged, %d failing" % (len(bobs), len(bt.marked["FAIL"])))
+        print("EXTRA-VIOLATION module=Builtins clause=%s case=%s" % ("+".join(sorted(f["clauses"])), json.dumps(bobs[f["line"] - 1])))
+    print("Builtins (FixedStatus, Disabled/FixedAuthentication, FixedDiscovery): %d cases judged, %d failing" % (len(bobs), len(bt.marked["FAIL"])))
     # ---- ConfigLayers: the application's own Config::read() in child processes with every combination of layers
     import subprocess
     c = vlib.run_tlc("MC_ConfigLayers", "MC_ConfigLayers.cfg", wd, workers=1, timeout=300)
